@@ -7,7 +7,9 @@
   `Props/C06_overlap_memo.lean: overlap_memo_terminates` proves sufficient on every document.
   `runMemo`: the chain as modelled (`run`, UN-memoised search - the one the theorems are about); where that one
   exhausts its fuel (fragment cycles below fields: the code before the memo recursed forever), the other rules' errors
-  come from the chain without the overlap rule and the overlap rule's from the memoised run. Both overlap counts are
+  come from the chain without the overlap rule and the overlap rule's from the memoised run; on UNRANKED documents
+  (`rankOkB` false: fragment cycles - outside every theorem about the un-memoised search) the un-memoised search is
+  not run at all (it exhausts its fuel, possibly after exponentially many steps). Both overlap counts are
   returned so that the correspondence can CROSS-CHECK "memoised verdict = un-memoised verdict whenever the latter does
   not crash" on every document (standing in for the verdict-neutrality theorem, which is open).
 -/
@@ -53,9 +55,24 @@ structure MemoAnswer where
   memoOverlap : Option Nat
   memoCrash : Option String
 
-def runMemo (c : Cfg) (d : Doc) : MemoAnswer :=
-  let o1 := run c d
+/-- the chain without the overlap rule + the memoised overlap rule -/
+def runSupplied (c : Cfg) (d : Doc) (m : Nat × OCtx) : Outcome :=
   let ov := Rule.overlappingFieldsCanBeMerged
+  match run { c with rules := c.rules.filter (· != ov) } d, m.2.crash with
+  | .crash e', _ => .crash e'
+  | .errors _, some e' => .crash e'
+  | .errors l, none => .errors (c.rules.map fun r => if r == ov then (r, m.1) else (r, ((l.find? (·.1 == r)).map (·.2)).getD 0))
+
+def runMemo (c : Cfg) (d : Doc) : MemoAnswer :=
+  let ov := Rule.overlappingFieldsCanBeMerged
+  if c.rules.contains ov && !rankOkB c.schema d (rankOf (computeRanks d)) then
+    /- UNRANKED document (fragment cycle, or nesting beyond the rank bound): outside every theorem about the un-memoised
+       search, which here runs out of fuel or - before it does - takes exponentially many steps; it is not run at all -/
+    let m := overlapMemoRun c.schema c.fixes d
+    { outcome := runSupplied c d m, supplied := true, plainCrash := some "not-run:unranked", plainOverlap := none,
+      memoOverlap := some m.1, memoCrash := m.2.crash }
+  else
+  let o1 := run c d
   if c.rules.contains ov then
     let m := overlapMemoRun c.schema c.fixes d
     match o1 with
@@ -63,13 +80,7 @@ def runMemo (c : Cfg) (d : Doc) : MemoAnswer :=
       { outcome := o1, supplied := false, plainCrash := none, plainOverlap := (l.find? (·.1 == ov)).map (·.2),
         memoOverlap := some m.1, memoCrash := m.2.crash }
     | .crash e =>
-      let o2 := run { c with rules := c.rules.filter (· != ov) } d
-      let out : Outcome :=
-        match o2, m.2.crash with
-        | .crash e', _ => .crash e'
-        | .errors _, some e' => .crash e'
-        | .errors l, none => .errors (c.rules.map fun r => if r == ov then (r, m.1) else (r, ((l.find? (·.1 == r)).map (·.2)).getD 0))
-      { outcome := out, supplied := true, plainCrash := some e, plainOverlap := none,
+      { outcome := runSupplied c d m, supplied := true, plainCrash := some e, plainOverlap := none,
         memoOverlap := some m.1, memoCrash := m.2.crash }
   else
     { outcome := o1, supplied := false, plainCrash := (match o1 with | .crash e => some e | _ => none), plainOverlap := none,
